@@ -130,7 +130,7 @@ func (g *gen) node(x gx) *Node {
 		return &Node{Op: nNotify, K: g.r.Range(1, 9)}
 	case 3:
 		if g.r.Chance(2, 5) { // read a stored value, derive bytes from it, edit them in place (storage must not change)
-			return &Node{Op: nEdit, K: g.r.Intn(4), V: g.r.Intn(12)}
+			return &Node{Op: nEdit, K: g.r.Intn(4), V: g.r.Intn(15)}
 		}
 		return &Node{Op: nIf, K: g.r.Intn(4), Body: g.list(x.sub(3))}
 	case 4:
